@@ -495,3 +495,11 @@ def run(ctx):
     ctx.rule("R01.10", "a filesystem change under a watched path can only become an event if the path is registered with the watcher")
     ctx.borrow("C13", ["R13.1", "R13.2", "R13.3", "R13.9"], "R01.10",
                "configuration changes are not lost, the shadow set is reset with the watcher, and the round's diff registers every configured path")
+
+    ctx.rule("R01.11", "the action worker cannot be brought down by a duration: no run-time duration (the throttle may be Duration::MAX, `only act on urgent "
+                       "events`) is added to an Instant with the panicking operator - a panic there loses the pending batch and closes the queue (shared with R06.11)")
+    try:
+        from .. import jobrules as _jr
+        _jr.no_panicking_instant_arith(ctx, "R01.11")
+    except Skip:
+        pass
